@@ -1,6 +1,6 @@
 import Ebu.Spec.Flow
 import Ebu.Generated.Consts
-import Ebu.Props.C03
+import Ebu.Props.C03Facts
 import Ebu.Proofs.PersistConc
 import Ebu.Generated.SqlFacts
 import Ebu.Spec.Log
